@@ -151,7 +151,11 @@ func (f *flattener) flattenFragments(selectionSet *graphql.SelectionSet, typ *gr
 // mergeSameAlias combines selections with same alias, verifying their
 // arguments and field are identical.
 func mergeSameAlias(selections []*graphql.Selection) ([]*graphql.Selection, error) {
-	sort.Slice(selections, func(i, j int) bool {
+	// Stable: selections with the same alias stay in the order of the query,
+	// so the merged selection is the first one of the query and its
+	// sub-selections follow in query order (sort.Slice reorders equal
+	// elements once there are more than a dozen selections).
+	sort.SliceStable(selections, func(i, j int) bool {
 		return selections[i].Alias < selections[j].Alias
 	})
 
